@@ -49,6 +49,7 @@ import (
 	"reflect"
 	"strings"
 	"sync"
+	"sync/atomic"
 	"time"
 
 	"github.com/cloudwego/hertz/internal/bytestr"
@@ -275,6 +276,7 @@ type Client struct {
 	mLock          sync.Mutex
 	m              map[string]client.HostClient
 	ms             map[string]client.HostClient
+	pending        map[client.HostClient]*int32 // per host client: calls that picked it from m/ms and have not returned yet
 	mws            Middleware
 	lastMiddleware Middleware
 }
@@ -528,6 +530,17 @@ func (c *Client) do(ctx context.Context, req *protocol.Request, resp *protocol.R
 			startCleaner = true
 		}
 	}
+	// the cleaner must not remove a host client that a call is about to use
+	if c.pending == nil {
+		c.pending = make(map[client.HostClient]*int32)
+	}
+	pending := c.pending[hc]
+	if pending == nil {
+		pending = new(int32)
+		c.pending[hc] = pending
+	}
+	atomic.AddInt32(pending, 1)
+	defer atomic.AddInt32(pending, -1)
 
 	c.mLock.Unlock()
 
@@ -567,8 +580,12 @@ func (c *Client) cleanHostClients(isTLS bool) bool {
 		m = c.ms
 	}
 	for k, v := range m {
+		if p := c.pending[v]; p != nil && atomic.LoadInt32(p) != 0 {
+			continue
+		}
 		if v.ShouldRemove() {
 			delete(m, k)
+			delete(c.pending, v)
 			if f, ok := v.(io.Closer); ok {
 				err := f.Close()
 				if err != nil {
